@@ -26,6 +26,7 @@ import (
 	"math"
 	"math/big"
 	"reflect"
+	"strconv"
 	"sync"
 	"unicode/utf8"
 
@@ -53,14 +54,11 @@ func c17txt(s string) obj {
 	return obj{"b": byteArr(s)}
 }
 
-type c17Pos struct {
-	File obj `json:"file"`
-	Line int `json:"line"`
-	Col  int `json:"col"`
-}
+// a position is recorded as one ASCII string: quoted file name, line, column
+type c17Pos = string
 
 func c17pos(p syntax.Position) c17Pos {
-	return c17Pos{c17txt(p.Filename()), int(p.Line), int(p.Col)}
+	return fmt.Sprintf("%s:%d:%d", strconv.QuoteToASCII(p.Filename()), p.Line, p.Col)
 }
 
 type c17Param struct {
@@ -79,7 +77,7 @@ type c17Fn struct {
 	Kwargs   bool       `json:"kwargs"`
 	Params   []c17Param `json:"params"`
 	FreeVars []obj      `json:"freevars"`
-	PosTab   [][]int    `json:"postab"` // [pc, line, col] wherever the position changes
+	PosTab   []int      `json:"postab"` // pc, line, col, pc, line, col, ... wherever the position changes
 }
 
 type c17Side struct {
@@ -279,7 +277,7 @@ func (w *c17walker) walk(v starlark.Value, depth int) {
 
 func c17fn(fn *starlark.Function) c17Fn {
 	m := c17Fn{Name: c17txt(fn.Name()), Doc: c17txt(fn.Doc()), Pos: c17pos(fn.Position()), NParams: fn.NumParams(),
-		NKwonly: fn.NumKwonlyParams(), Varargs: fn.HasVarargs(), Kwargs: fn.HasKwargs(), Params: []c17Param{}, FreeVars: []obj{}, PosTab: [][]int{}}
+		NKwonly: fn.NumKwonlyParams(), Varargs: fn.HasVarargs(), Kwargs: fn.HasKwargs(), Params: []c17Param{}, FreeVars: []obj{}, PosTab: []int{}}
 	for i := 0; i < fn.NumParams(); i++ {
 		n, p := fn.Param(i)
 		d := obj{"some": false}
@@ -297,7 +295,7 @@ func c17fn(fn *starlark.Function) c17Fn {
 	for pc := 0; pc < len(fc.Code); pc++ {
 		p := fc.Position(uint32(pc))
 		if pc == 0 || p.Line != last.Line || p.Col != last.Col {
-			m.PosTab = append(m.PosTab, []int{pc, int(p.Line), int(p.Col)})
+			m.PosTab = append(m.PosTab, pc, int(p.Line), int(p.Col))
 			last = p
 		}
 	}
@@ -358,7 +356,7 @@ func c17side(c *c17Case, prog *starlark.Program) *c17Side {
 		if ee, ok := err.(*starlark.EvalError); ok {
 			s.Err = c17txt(ee.Msg)
 			for _, fr := range ee.CallStack {
-				s.Stack = append(s.Stack, []any{c17txt(fr.Name), c17txt(fr.Pos.Filename()), int(fr.Pos.Line), int(fr.Pos.Col)})
+				s.Stack = append(s.Stack, []any{c17txt(fr.Name), c17pos(fr.Pos)})
 			}
 		} else {
 			s.Err = c17txt(err.Error())
@@ -380,7 +378,7 @@ func c17side(c *c17Case, prog *starlark.Program) *c17Side {
 	s.Filename = c17txt(prog.Filename())
 	for i := 0; i < prog.NumLoads(); i++ {
 		n, p := prog.Load(i)
-		s.Loads = append(s.Loads, []any{c17txt(n), c17txt(p.Filename()), int(p.Line), int(p.Col)})
+		s.Loads = append(s.Loads, []any{c17txt(n), c17pos(p)})
 	}
 	if top != nil {
 		w.fns = append([]*starlark.Function{top}, w.fns...)
